@@ -37,13 +37,32 @@ class NotInlinable(Exception):
     pass
 
 
+def fingerprint(fn: ast.AST) -> List[str]:
+    """What a function is made of, independent of its own name and of the names of its locals: the names it calls,
+    the attributes it touches, its string constants, the exception classes it handles."""
+    toks: Set[str] = set()
+    for n in _own(fn):
+        if isinstance(n, ast.Call):
+            f = n.func
+            toks.add("call:" + (f.attr if isinstance(f, ast.Attribute) else f.id if isinstance(f, ast.Name) else "?"))
+        elif isinstance(n, ast.Attribute):
+            toks.add("attr:" + n.attr)
+        elif isinstance(n, ast.Constant) and isinstance(n.value, str) and 2 < len(n.value) <= 60:
+            toks.add("str:" + n.value)
+        elif isinstance(n, ast.ExceptHandler) and n.type is not None:
+            toks.add("except:" + ast.unparse(n.type))
+        elif isinstance(n, (ast.While, ast.For, ast.AsyncFor, ast.With, ast.AsyncWith, ast.Try, ast.Raise, ast.Return, ast.Continue, ast.Break)):
+            toks.add("stmt:" + type(n).__name__)
+    return sorted(toks)
+
+
 def load_snapshot() -> Optional[Dict[str, Set[str]]]:
     try:
         with open(SNAPSHOT) as fh:
             d = json.load(fh)
     except OSError:
         return None
-    return {"fq": set(d["functions"]), "qual": {q.split(":", 1)[1] for q in d["functions"]}, "classes": set(d.get("classes", []))}
+    return {"fq": set(d["functions"]), "qual": {q.split(":", 1)[1] for q in d["functions"]}, "classes": set(d.get("classes", [])), "prints": d.get("fingerprints", {})}
 
 
 # --------------------------------------------------------------------------- helpers on trees
@@ -173,6 +192,7 @@ class Inliner:
         self.skipped: Dict[str, str] = {}
         self.waiting = 0
         self.force = False
+        self.renamed: Dict[str, str] = {}
 
     # which functions are new helpers
     def is_new(self, fi) -> bool:
@@ -182,6 +202,8 @@ class Inliner:
             return False  # a known function that moved to another module
         if fi.name.startswith("__") and fi.name.endswith("__"):
             return False
+        if fi.fq in self.renamed:
+            return False  # a known unit under a new name
         return True
 
     def inlinable_def(self, fi) -> Optional[str]:
@@ -205,9 +227,33 @@ class Inliner:
             return "too large"
         return None
 
+    def _find_renamed(self) -> None:
+        """A function of the reference decomposition that is missing under its old name but whose substance is found under
+        a new name is the same unit, renamed: it stays a unit (rules find it by role)."""
+        prints = self.snap.get("prints") or {}
+        present = set(self.P.funcs)
+        missing = [fq for fq in self.snap["fq"] if fq not in present and fq.split(":", 1)[1] not in {f.qual for f in self.P.funcs.values()} and len(prints.get(fq, [])) >= 6]
+        if not missing:
+            return
+        cands = [fi for fi in self.P.funcs.values() if self.is_new(fi)]
+        cand_prints = {fi.fq: set(fingerprint(fi.node)) for fi in cands}
+        for fq in missing:
+            old = set(prints[fq])
+            best, best_s = None, 0.0
+            for fi in cands:
+                new = cand_prints[fi.fq]
+                if not new:
+                    continue
+                sim = len(old & new) / len(old | new)
+                if sim > best_s:
+                    best, best_s = fi, sim
+            if best is not None and best_s >= 0.6 and best.fq not in self.renamed:
+                self.renamed[best.fq] = fq
+
     def run(self) -> int:
         P = self.P
         total = 0
+        self._find_renamed()
         for _ in range(MAX_ROUNDS):
             new = {fi.fq: fi for fi in P.funcs.values() if self.is_new(fi)}
             if not new:
